@@ -142,6 +142,14 @@ func hC13PassThrough() {
 func hC18Dispatch() {
 	cfg := &pipeCfg{maxMsg: 16, kind: fkUnary, clientCodec: CodecProto, svcCodecs: []string{CodecJSON}}
 	cfg.svcProtos = []Protocol{pipeProtocols[verifChoose("target", 4)]}
+	// rejection classes (one per run)
+	class := verifChoose("reject", 13)
+	if class == 12 {
+		if cfg.svcProtos[0] == ProtocolREST {
+			return
+		}
+		cfg.kind = fkBidi // full-duplex method: requires HTTP/2 from the client whatever the target
+	}
 	p := newPipe(cfg)
 	if !p.buildOK {
 		return
@@ -154,8 +162,6 @@ func hC18Dispatch() {
 	p.backend.script = &respScript{msgs: []wireMsg{{abstract: []byte{'r'}}}}
 	cfg.client = verifChoose("client", 4) // gRPC, gRPC-Web, Connect stream (rejected for unary), Connect unary
 	req := buildClientRequest(cfg, []wireMsg{{abstract: []byte{'q'}}}, p.body)
-	// rejection classes (one per run)
-	class := verifChoose("reject", 12)
 	expectReject := true
 	switch class {
 	case 0:
@@ -222,6 +228,11 @@ func hC18Dispatch() {
 			return
 		}
 		p.body.data = []byte{0, 0, 0, 1, 0}
+	case 12: // bidi method over HTTP/1.x (any streaming client form)
+		if cfg.client == cfConnectUnary {
+			return
+		}
+		req.Proto, req.ProtoMajor, req.ProtoMinor = "HTTP/1.1", 1, 1
 	case 11: // leading message truncated while needed (REST target): envelope announces 2 bytes, 0 or 1 arrive
 		target, _, _ := refNegotiate(cfg)
 		if target != ProtocolREST || !clientEnveloped(cfg.client) || cfg.client == cfConnectStream {
